@@ -291,7 +291,7 @@ func (w *worker) sortCase(k kind, cfg sortCfg, in []row, d int, ch chunking, err
 	desc := func(got string) sortCase {
 		return sortCase{"SortReader", kindName[k], cfg.String(), clip(in), d, ch.String(), errAt, runs, got}
 	}
-	base := "C10/sort/"
+	base := "C10/sort/" + structSig(k)
 	class := func() string { return runsClass(runs) }
 
 	p := guard(func() {
@@ -470,7 +470,7 @@ func (w *worker) mergeCase(k kind, batch int, streams [][]row, d int, ch chunkin
 	desc := func(got string) mergeCase {
 		return mergeCase{"NewMergeReader", kindName[k], batch, streamsDesc(streams), d, ch.String(), fmt.Sprintf("(%d,%d)", errStream, errAt), got}
 	}
-	base := "C10/merge/"
+	base := "C10/merge/" + structSig(k)
 	class := streamsClass(streams)
 	p := guard(func() {
 		R, err = sortio.NewMergeReader(context.Background(), typOf(k), readers)
@@ -564,6 +564,24 @@ var sumCombiner = func() slicefunc.Func {
 	return f
 }()
 
+// pointCombiner adds points field by field; on the packed model payload
+// (X<<16 | Y, no carry out of Y in the enumerated inputs) that is integer addition.
+var pointCombiner = func() slicefunc.Func {
+	f, ok := slicefunc.Of(func(a, b point) point { return point{a.X + b.X, a.Y + b.Y} })
+	if !ok {
+		panic("slicefunc.Of")
+	}
+	return f
+}()
+
+// structSig puts the pointer-free struct column kinds in a signature class of their own.
+func structSig(k kind) string {
+	if isStructKind(k) {
+		return "struct-column/"
+	}
+	return ""
+}
+
 type reduceCase struct {
 	Scenario string   `json:"scenario"`
 	Kind     string   `json:"key_type"`
@@ -610,10 +628,14 @@ func (w *worker) reduceCase(k kind, chunk int, streams [][]row, d int, ch chunki
 	desc := func(got string) reduceCase {
 		return reduceCase{"Reduce", kindName[k], chunk, streamsDesc(streams), d, ch.String(), fmt.Sprintf("(%d,%d)", errStream, errAt), clip(wantRows), got}
 	}
-	base := "C10/reduce/"
+	base := "C10/reduce/" + structSig(k)
 	class := streamsClass(streams)
 	p := guard(func() {
-		R := sortio.Reduce(typOf(k), "c10", readers, sumCombiner)
+		comb := sumCombiner
+		if k == kPt {
+			comb = pointCombiner
+		}
+		R := sortio.Reduce(typOf(k), "c10", readers, comb)
 		res = drive(k, R, d)
 	})
 	calls = make([]int, len(ups))
